@@ -39,7 +39,7 @@ def gen_cfg(rng, kind):
              refine=rng.choice([None, "integral"]), batch=rng.choice([1, 3]))
     if kind == "topdown":
         csn, csd = rng.choice(SCALES)
-        c.update(csn=csn, csd=csd, cs=rng.choice([1, 2, 4]), crop=rng.choice([24, 32]), anchor=rng.choice([None, 0]))
+        c.update(csn=csn, csd=csd, cs=rng.choice([1, 2, 4]), crop=rng.choice([24, 32]), cropw=rng.choice([24, 32, 40]), anchor=rng.choice([None, 0]))
     return c
 
 
@@ -63,7 +63,7 @@ def gen_scene(rng, c, kind, n_nodes=3, n_frames=3):
                 pts[rng.randrange(n_nodes)] = np.nan
             animals.append(pts)
         else:
-            ext = c["crop"] * a  # crop extent in original px
+            ext = min(c["crop"], c.get("cropw") or c["crop"]) * a  # (smaller) crop extent in original px
             ac = 1.0 / (eff * c["csn"] / c["csd"])
             r = 0.5 * ext - (ac * c["cs"] + 2 * a * c["s"] + 3)  # pose radius so that every node stays inside the crop
             if r < 2:
@@ -111,7 +111,7 @@ def observe(kind, c, frames, provider, n_nodes, with_labels=False):
     if kind == "single":
         pred, stubs = ip.build_single(pc, frames, n_nodes)
     else:
-        pc.update(cscale=c["csn"] / c["csd"], cstride=c["cs"], crop=c["crop"], anchor=c["anchor"])
+        pc.update(cscale=c["csn"] / c["csd"], cstride=c["cs"], crop=c["crop"], cropw=c.get("cropw"), anchor=c["anchor"])
         pred, stubs = ip.build_topdown(pc, frames, n_nodes)
     try:
         outs = ip.run_predictor(pred, provider, labels, c["batch"])
@@ -251,7 +251,7 @@ def run(tier, seed, replay_case=None):
     res.clause("cases_size_matched", sum(1 for c in cases if c["cfg"]["maxH"]))
     res.coverage.update(evaluations=len(cases), exhaustive=False,
                         distinct_nontrivial=len({(c["kind"], str(c["full"]), c["provider"], c["frame"], str(c["kps"])) for c in cases if c["kps"]}),
-                        rule="seeded configurations from sizes x max sizes x scales {1, 1/2} (both stages) x max_stride {8,16} x output strides {1,2,4} x crop {24,32} x refinement x batch {1,3} x both providers; 3 frames per run, keypoints on the quarter-pixel lattice at least two cells inside the image / crop; non-trivial = a case with judged keypoints")
+                        rule="seeded configurations from sizes x max sizes x scales {1, 1/2} (both stages) x max_stride {8,16} x output strides {1,2,4} x crop_hw {24,32} x {24,32,40} (non-square included) x refinement x batch {1,3} x both providers; 3 frames per run, keypoints on the quarter-pixel lattice at least two cells inside the image / crop; non-trivial = a case with judged keypoints")
     if cases:
         c = next((c for c in cases if c["kps"]), cases[0])
         res.sample(dict(kind=c["kind"], cfg=c["full"], provider=c["provider"], kps=c["kps"][:3]))
